@@ -1108,6 +1108,81 @@ static void genRadical(GenCtx &g, int count)
     }
 }
 
+
+// ---- same numeric base, symbolic exponents whose sum is rational (Mul::dict_add_term_new, existing-key path:
+// the merged exponent becomes a Rational and base**sum is re-normalised by rpowrat/powrat).  Numeric oracle only.
+static void genSymExp(GenCtx &g, int count)
+{
+    Rng &r = g.r;
+    static const long bn[] = {2, 3, 1, 1, 2, -1, -2, 4, 8, 5, 3, 1, 1, -1, 12, 1, 9, -3, 6, 27, 1, 1, -1, -1, 1, 1};
+    static const long bd[] = {1, 1, 2, 3, 3, 1, 1, 1, 1, 1, 2, 4, 8, 2, 1, 5, 4, 1, 1, 8, 2, 3, 1, 1, 6, 9};
+    B x = symbol("x"), y = symbol("y"), z = symbol("z"), w = symbol("w");
+    for (int i = 0; i < count; i++) {
+        try {
+            size_t bi = r.below(sizeof bn / sizeof *bn);
+            B b = Rational::from_two_ints(bn[bi], bd[bi]);
+            auto ratS = [&]() -> B {
+                static const long dens[] = {2, 2, 3, 3, 4, 5, 6, 1};
+                long d = dens[r.below(8)];
+                long n = r.range(-13, 13);
+                if (d > 1 && r.coin(1, 3))
+                    n = -(long)(1 + r.below(d - 1)); // sums in (-1, 0): 1/q bases re-normalise to a bare radical
+                return Rational::from_two_ints(n, d);
+            };
+            // symbolic part of the first exponent
+            B e1;
+            switch (r.below(6)) {
+                case 0:
+                    e1 = x;
+                    break;
+                case 1:
+                    e1 = neg(x);
+                    break;
+                case 2:
+                    e1 = sub(x, y);
+                    break;
+                case 3:
+                    e1 = mul(integer(2), x);
+                    break;
+                case 4:
+                    e1 = add(x, ratS());
+                    break;
+                default:
+                    e1 = add(mul(Rational::from_two_ints(1, 2), x), y);
+            }
+            unsigned k = r.below(100);
+            if (k < 40) {
+                // b**e1 * b**(s - e1)
+                vec_basic a = {pow(b, e1), pow(b, expand(sub(ratS(), e1)))};
+                if (r.coin())
+                    std::swap(a[0], a[1]);
+                emitOp(g, "mul", a, "radical-symexp-2", 0, "r");
+            } else if (k < 50) {
+                // b**e1 / b**(e1 - s)
+                emitOp(g, "div", {pow(b, e1), pow(b, expand(sub(e1, ratS())))}, "radical-symexp-2", 0, "r");
+            } else if (k < 70) {
+                // three factors: b**e1 * b**(y + s1) * b**(s2 - e1 - y)
+                B e2 = add(y, ratS());
+                B e3 = expand(sub(sub(ratS(), e1), y));
+                vec_basic a = {pow(b, e1), pow(b, e2), pow(b, e3)};
+                emitOp(g, "muln", a, "radical-symexp-3", 0, "r");
+            } else if (k < 90) {
+                // inside larger products
+                B p1 = mul({r.coin() ? (B)z : smallInt(r, true), pow(b, e1), r.coin() ? pow(w, integer(2)) : (B)one});
+                B p2 = mul({r.coin() ? (B)w : smallRat(r), pow(b, expand(sub(ratS(), e1))), r.coin() ? pow(z, Rational::from_two_ints(1, 2)) : (B)one});
+                emitOp(g, "mul", {p1, p2}, "radical-symexp-in-product", 0, "r");
+            } else {
+                // a product already holding b**e1, multiplied by a numeric radical of the same base and by b**(s - e1)
+                B p1 = mul(pow(b, e1), z);
+                vec_basic a = {p1, pow(b, ratS()), pow(b, expand(sub(ratS(), e1)))};
+                emitOp(g, "muln", a, "radical-symexp-in-product", 0, "r");
+            }
+        } catch (const std::exception &) {
+            // construction of an operand failed (not the op under test)
+        }
+    }
+}
+
 void hx_gen(Rng &r, const std::string &tier)
 {
     bool th = tier == "thorough";
@@ -1139,6 +1214,7 @@ void hx_gen(Rng &r, const std::string &tier)
         build(g, d, d);
     }
     genRadical(g, th ? 3000 : 700);
+    genSymExp(g, th ? 1200 : 300);
     std::cerr << "c07 gen: emitted=" << g.emitted << " dropped_cost=" << g.dropped_cost << " dropped_len=" << g.dropped_len
               << "\n";
 }
